@@ -42,6 +42,11 @@ def cases(tier, seed):
     for sc, c in common.add_algs(common.batch_seq_scope(lvl),
                                  common.batch_seq_algs):
         out.append((sc, c))
+    # (1c) structural (zero-work) nodes allocated while another workflow
+    #      allocates
+    for sc, c in common.add_algs(common.zero_comp_scope(lvl),
+                                 lambda c: common.shipped(c, lvl, "diag")):
+        out.append((sc, dict(c, delay={"mode": "choice", "arity": 3})))
     # (2) adversaries
     adv_base = common.thin(base, 6 if tier == "thorough" else 7)
     for sc, c in adv_base:
